@@ -90,7 +90,8 @@ def main(argv) -> int:
             else:
                 n_min = minimised_classes.get(out.violation, 0)
                 rec = {"run": i, "class": out.violation, "detail": out.detail, "info": out.info}
-                if n_min < 2:
+                sc_orig, dig_orig = json.loads(jdump(sc)), out.digest
+                if n_min < getattr(mod, "SHRINK_PER_CLASS", 4) and sum(minimised_classes.values()) < getattr(mod, "SHRINK_TOTAL", 24):
                     minimised_classes[out.violation] = n_min + 1
 
                     def still_unknown(o, _cls=out.violation):
@@ -103,11 +104,13 @@ def main(argv) -> int:
                             if (o_c.violation == out.violation and not o_c.error) or sc2.get("attempts"):
                                 sc = sc2
                     best, execs = minimise(mod, sc, out.violation, accept=still_unknown,
-                                           max_execs=int(os.environ.get("VERIF_SHRINK_EXECS", "250")))
+                                           max_execs=int(os.environ.get("VERIF_SHRINK_EXECS", str(getattr(mod, "SHRINK_EXECS", 250)))))
                     o2 = run_scenario(mod, best)
                     if o2.violation == out.violation and not o2.error:
                         rec.update({"scenario": json.loads(jdump(best)), "digest": o2.digest,
-                                    "detail": o2.detail, "info": o2.info, "shrink_execs": execs})
+                                    "detail": o2.detail, "info": o2.info, "shrink_execs": execs,
+                                    # kept in case the minimised form only failed because of state left in this process
+                                    "scenario_orig": sc_orig, "digest_orig": dig_orig})
                     else:  # pure function: cannot happen, except for C19 mode=compiled (real scheduler)
                         rec.update({"scenario": json.loads(jdump(sc)), "digest": out.digest, "shrink_execs": -1})
                 if len(res["violations"]) < 40:
